@@ -391,6 +391,7 @@ def run(ctx):
     if not ok and not r0.violations:
         r0.instances[:] = []
         r0.inst("evaluation not available", "fallback to the structural rule R1: %s" % str(why)[:200])
+        r0.viol("R0:undecided", "the evaluation cannot interpret the current code (%s): the clauses it decides are NOT decided on this tree; the structural rules reported alongside only cover part of them (fail closed)" % str(why)[:300])
         r0.floor = 1
     return [r0, r1_traversals(ctx)] + rest
 
